@@ -18,7 +18,7 @@ from vlib import fmt_list, parse_list
 CU_MAX = [0xFF, 0xFFFF, 0xFFFFFFFF, 0xFFFFFFFF]
 WS = [32, 9, 10, 13]
 TABLES = (("Tables_json", "gentables_json.cpp"), ("Tables_digit", "gentables_digit.cpp"))
-PATCHES = "D2 D11 D15 D16 D61 D62 D63 D81 D92 (json) + D28 D43 D44 D45 D46 (digit)"
+PATCHES = "D2 D11 D15 D16 D61 D62 D63 D81 D92 D93 (json) + D28 D43 D44 D45 D46 (digit)"
 
 
 def to_utf(w, cp):
@@ -370,6 +370,59 @@ def lone_surrogate_cases(rng, widths, kind="X", full=True):
 
 
 # ---------------------------------------------------------------------------
+# D93: a backslash-u escape with FEWER than four hexadecimal digits.  Before the repair HexStringToNumber stopped at the
+# first unit that is not a digit while UnEscape advanced four units regardless, so the units behind a short group --
+# the closing quote of the string among them -- were swallowed: ["\\u1","abcd"] was a one-element array and ["\\u00zz"]
+# the string 00.  After the repair such a group is refused (in the first escape and in the second half of a pair), so
+# these texts are outside the accepted language: the text itself and every proper prefix must give Undefined.
+
+SHORT_HEX_TERMS = [asc("z"), asc("g"), asc("G"), asc(" "), asc("-"), asc("x1"), []]     # [] = the closing quote follows at once
+SHORT_HEX_STARTERS = [asc("]"), asc("}"), asc(","), asc(":")]
+HEXDIGS = asc("0123456789abcdefABCDEF")
+
+
+def short_hex_docs(rng, full=True):
+    """texts (ASCII) with an escape that has 0..3 hexadecimal digits followed by a unit that is not one, by the closing
+    quote, or (through the prefixes) by the end of the text; in the first escape and in the second half of a pair;
+    later strings begin with a closing bracket or a separator"""
+    docs = []
+    for half in (0, 1):
+        for j in range(4):
+            for term in SHORT_HEX_TERMS:
+                for fill in (range(4) if full else [rng.randrange(4)]):
+                    for st in (SHORT_HEX_STARTERS if full else [rng.choice(SHORT_HEX_STARTERS)]):
+                        u = rng.choice([117, 85])
+                        digs = [rng.choice(HEXDIGS) for _ in range(j)]
+                        if half == 0:
+                            esc = [92, u] + digs
+                        else:
+                            hi = rng.choice([0xD800, 0xD83D, 0xDBFF])
+                            esc = [92, u] + hex4(hi, rng.randrange(16)) + [92, rng.choice([117, 85])] + digs
+                        body = asc(rng.choice(["", "p"])) + esc + term + asc("wvut")[:fill]
+                        s1 = [34] + body + [34]
+                        s2 = [34] + st + asc(rng.choice(["", "abcd", "00"])) + [34]
+                        shapes = [
+                            [91] + s1 + [44] + s2 + [93],
+                            [123] + s1 + [58] + s2 + [125],
+                            [123] + asc("\"k\":") + s1 + [44] + s2 + [58] + asc("1") + [125],
+                            [91] + s1 + [93],
+                        ]
+                        for d in (shapes if full else rng.sample(shapes, 2)):
+                            docs.append(d)
+    return docs
+
+
+def short_hex_cases(rng, widths, kind="X", full=True):
+    """the text and every proper prefix, at each of the given widths"""
+    res = []
+    for d in short_hex_docs(rng, full):
+        for w in widths(rng):
+            for k in range(len(d) + 1):
+                res.append("%s %d %s" % (kind, w, fmt_list(d[:k])))
+    return res
+
+
+# ---------------------------------------------------------------------------
 # histories: several texts through ONE caller-supplied scratch stream (D81)
 
 
@@ -679,6 +732,7 @@ def run_check(prop, tier, gen, theorems_file, what, level_rule, extra=None):
         "the model describes /repo with the repairs %s applied (findings/*.patch)" % PATCHES,
         "character widths char, char16_t, char32_t, wchar_t on LP64 little-endian; lengths below 2^32",
         "after D92 a high surrogate escape (\\uD800..\\uDBFF) must be followed by another \\u escape (whose value stays unchecked, as the repository's own suite pins): texts with an UNPAIRED high surrogate escape are outside the accepted language -- they and all their proper prefixes give Undefined (C07 run, kind lone_surrogate); RFC 8259 does not require a reader to accept them",
+        "after D93 a backslash-u escape must have exactly four hexadecimal digits (either case), in the first escape and in the second half of a pair: texts with a shorter group (accepted before: [\"\\u1\",\"abcd\"], [\"\\u00zz\"]) are outside the accepted language -- they and all their proper prefixes give Undefined (C07 run, kind short_hex); they are not JSON",
         "real numbers: kind and consumed text are proved (every RFC numeral, JsonDigitRfc/Big/Forms.v); the value of a real leaf is DEFINED as the bits DigitModel.string_to_number gives its text (accuracy is C09/C10/C11); that JsonModel.scan_number and DigitModel.string_to_number agree is compared on every numeral of the generated documents (C06 run), not proved; of the text RealToString emits only the alphabet is proved (JsonDigitAlpha.v), its order is a per-leaf boolean",
     ]
     return rep.finish()
